@@ -200,7 +200,9 @@ class Run:
         self.sess = None
         self.model = Model(mx_exe)
         self.n_reads = 0
-        self.n_steps = {"write": 0, "flush": 0, "compact": 0, "move": 0, "reopen": 0, "gc": 0, "none": 0}
+        self.n_steps = {"write": 0, "flush": 0, "compact": 0, "move": 0, "reopen": 0, "gc": 0, "none": 0,
+                        "select": 0, "select-none": 0, "deferred": 0}
+        self.pending = {}        # index -> description of a compaction selected and not yet performed
         self.open_session(first=True)
 
     # -- helpers
@@ -307,6 +309,7 @@ class Run:
 
     def reopen(self):
         self.sess.close()
+        self.pending = {}        # selections die with the process; nothing of them was applied
         self.open_session()
 
     # -- ops
@@ -436,7 +439,46 @@ class Run:
         if t[1] == "err" or t[0] == "PANIC":
             self.problem("error", what="compaction returned an error or panicked", out=out)
             return False
-        lo, up, fk, lk, size, inputs = int(t[1]), int(t[2]), unhx(t[3]), unhx(t[4]), int(t[5]), t[6].split(",")
+        return self.applied(t[1:], out)
+
+    def select(self):
+        """first half of a compaction step (as a compaction thread does it): the selector's choice
+        stays in the ongoing list; returns its index or None"""
+        if self.dead:
+            return None
+        out = self.sess.cmd("select")[0]
+        self.events.append(("select", out))
+        t = out.split(" ")
+        if t[0] != "SELECT" or t[1] == "err":
+            self.problem("error", what="selection did not complete", out=out)
+            self.dead = True
+            return None
+        if t[1] == "none":
+            self.n_steps["select-none"] += 1
+            return None
+        self.pending[int(t[1])] = t[2:]
+        self.n_steps["select"] += 1
+        return int(t[1])
+
+    def perform(self, idx):
+        """second half: the compaction selected earlier is performed NOW, on the tree as it is now
+        (other selections, performs, flushes and ingests happened in between); the model judges it
+        at this point, on its current version"""
+        if self.dead or idx not in self.pending:
+            return False
+        desc = self.pending.pop(idx)
+        out = self.sess.cmd("perform %d" % idx)[0]
+        self.events.append(("perform", out + " | " + " ".join(desc[:2])))
+        if out != "PERFORM ok":
+            self.problem("error", what="a selected compaction returned an error or panicked when performed later", out=out, selected=" ".join(desc)[:200])
+            if not out.startswith("PERFORM"):
+                self.dead = True
+            return False
+        self.n_steps["deferred"] += 1
+        return self.applied(desc, out)
+
+    def applied(self, t, out):
+        lo, up, fk, lk, size, inputs = int(t[0]), int(t[1]), unhx(t[2]), unhx(t[3]), int(t[4]), t[5].split(",")
         levels = self.dump()
         old_up = self.levels[up]
         lb = lower_bound(old_up, self.cache, fk)
